@@ -153,6 +153,9 @@ def gen_c01(rng, idx, tier, faults):
         xs = gen_X(rng, D.KINDS, 2, 24, 2, 12)
         if rng.random() < 0.15:
             xs["storage"] = rng.choice(["F", "view", "readonly"])
+        if rng.random() < 0.1:
+            # the caller's dtype: single precision, or integers for integer-valued data
+            xs["cast"] = "int64" if xs["kind"] == "lattice" else "float32"
         xn, yn = f"X{o}", None
         heap[xn] = xs
         if info["y"] == "req" or rng.random() < 0.5:
@@ -222,7 +225,7 @@ def gen_c06(rng, idx, tier, faults):
     if rng.random() < 0.2:
         yn = "y0"
         heap["y0"] = gen_y(rng, n_from)
-    cap = min(n_from, 40)
+    cap = n_from
     N = rng.randint(1, cap)
     p = gen_params(rng, "sample.VoronoiFPS", xs["shape"], N, "C06", faults)
     p.pop("progress_bar", None)
